@@ -130,6 +130,9 @@ PRIMS = {"float": "f32", "double": "f64", "int": "i32", "short": "i16", "signed 
 BITS = {"i8": 8, "u8": 8, "i16": 16, "u16": 16, "i32": 32, "u32": 32, "i64": 64, "bool": 1}
 COMPOSITE_RE = re.compile(r"^" + NS + r"(Vec2|Vec3|Vec4|Color3|Color4|Quat|Matrix22|Matrix33|Matrix44|Euler|Box)<\s*(.+?)\s*>$")
 ARRAY_RE = re.compile(r"^PyImath::FixedArray<\s*(.+?)\s*>$")
+OPTARRAY_RE = re.compile(r"^PyImath::FixedArray<\s*(.+?)\s*>\s*const\s*\*$")     # optional array argument (None allowed)
+FTEST_RE = re.compile(r"^" + NS + r"FrustumTest<\s*(float|double)\s*>$")
+ORDER_RE = re.compile(r"^" + NS + r"Euler<\s*(float|double)\s*>::Order$")
 
 CXX2PY = {}       # C++ type -> python class name (learned from the docstrings)
 
@@ -148,6 +151,14 @@ class TI:
             self.base = self.prim
             self.shape = "prim"
             self.n = 1
+            return
+        mt = FTEST_RE.match(cxx)
+        if mt:
+            # FrustumTest(frustum, cameraMatrix): an opaque, immutable scalar `self` (no accessors): never flattened
+            self.shape, self.base, self.n, self.fbase = "frustumtest", "i32", 0, PRIMS[mt.group(1)]
+            return
+        if ORDER_RE.match(cxx):
+            self.shape, self.base, self.n = "order", "i32", 1
             return
         m = COMPOSITE_RE.match(cxx)
         if not m:
@@ -188,6 +199,10 @@ class TI:
         return self.base in ("f32", "f64")
 
     def pycls(self):
+        if self.shape == "frustumtest":
+            return getattr(imath, "FrustumTest" + ("f" if self.fbase == "f32" else "d"), None)
+        if self.shape == "order":
+            return getattr(imath.Eulerf, "Order", None)
         n = CXX2PY.get(self.cxx)
         return getattr(imath, n) if n and hasattr(imath, n) else None
 
@@ -197,7 +212,7 @@ class TI:
 
 
 def arr_elem(cxx):
-    m = ARRAY_RE.match(cxx)
+    m = ARRAY_RE.match(cxx) or OPTARRAY_RE.match(cxx)
     return m.group(1).strip() if m else None
 
 
@@ -260,11 +275,60 @@ def gen_value(ti, rng, ds, role="any"):
         return gen_value_(ti, rng, "nice", role)
 
 
+TINY = {"f32": 1.401298464324817e-45, "f64": 5e-324}
+HUGE = {"f32": 3e38, "f64": 1e308}
+
+
+def special_element(ti, rng, which):
+    """whole-element failure inputs of the scalar operations (normalize / length / inverse / slerp ...): the zero
+    element, denormal-only and overflowing elements, a unit axis, all components equal, (matrices) zero / singular"""
+    b = ti.base
+    n = ti.n
+    if which == "zero":
+        nums = [0.0] * n
+    elif which == "negzero":
+        nums = [-0.0] * n
+    elif which == "tiny":
+        nums = [rng.choice((1.0, -1.0)) * TINY[b] for _ in range(n)]
+    elif which == "huge":
+        nums = [rng.choice((1.0, -1.0)) * HUGE[b] for _ in range(n)]
+    elif which == "axis":
+        k = rng.randrange(n)
+        nums = [(rng.choice((1.0, -1.0, 2.0)) if i == k else 0.0) for i in range(n)]
+    elif which == "equal":
+        v = gen_num(b, rng, "nice", "any")
+        nums = [v] * n
+    else:
+        raise ValueError(which)
+    return ti.pycls()(*nums)
+
+
+SPECIALS = ("zero", "tiny", "huge", "axis", "equal", "negzero")
+
+
 def gen_value_(ti, rng, ds, role="any"):
     b = ti.base
     if ti.shape == "prim":
         return gen_num(b, rng, ds, role)
     cls = ti.pycls()
+    if ti.shape == "frustumtest":
+        sfx = "f" if ti.fbase == "f32" else "d"
+        if ds == "nice" or rng.random() < 0.6:
+            n_ = rng.uniform(0.5, 2.0)
+            fr = getattr(imath, "Frustum" + sfx)(n_, n_ + rng.uniform(4.0, 30.0), -rng.uniform(0.3, 2.0), rng.uniform(0.3, 2.0),
+                                                 rng.uniform(0.3, 2.0), -rng.uniform(0.3, 2.0), bool(rng.getrandbits(1)))
+        else:
+            fr = getattr(imath, "Frustum" + sfx)()
+        m = getattr(imath, "M44" + sfx)()
+        if rng.random() < 0.7:
+            m.setTranslation(getattr(imath, "V3" + sfx)(rng.uniform(-2, 2), rng.uniform(-2, 2), rng.uniform(-2, 2)))
+        ft = cls(fr, m)
+        return Fresh(lambda ft=ft: ft, "FrustumTest%s(%r, %r)" % (sfx, fr, m))
+    if ti.shape == "order":
+        vals = sorted(cls.values.items())
+        return vals[rng.randrange(len(vals))][1]
+    if ti.isfloat and ds != "nice" and ti.shape in ("vec", "color", "quat") and role not in ("divisor", "shift") and rng.random() < 0.3:
+        return special_element(ti, rng, rng.choice(SPECIALS))
     if ti.shape in ("vec", "color"):
         return cls(*[gen_num(b, rng, ds, role) for _ in range(ti.n)])
     if ti.shape == "quat":
@@ -275,6 +339,8 @@ def gen_value_(ti, rng, ds, role="any"):
         return cls(*q)
     if ti.shape == "mat":
         vals = [gen_num(b, rng, ds, role) for _ in range(ti.n)]
+        if ds != "nice" and ti.isfloat and not SAFE and rng.random() < 0.1:
+            return cls(*([0.0] * ti.n)) if rng.random() < 0.5 else cls()      # the zero matrix / the identity
         if ds != "nice" and rng.random() < 0.15:      # singular: two equal rows
             d = ti.dim
             vals[d:2 * d] = vals[0:d]
@@ -298,6 +364,16 @@ def gen_value_(ti, rng, ds, role="any"):
     raise ValueError("cannot generate " + ti.cxx)
 
 
+class Fresh:
+    """a scalar argument that is re-made for every call (opaque objects: FrustumTest)"""
+
+    def __init__(self, fn, desc):
+        self.fn, self.desc = fn, desc
+
+    def __repr__(self):
+        return self.desc
+
+
 def _attr(o, n):
     v = getattr(o, n)
     return v() if callable(v) else v
@@ -308,6 +384,10 @@ def flat(ti, v):
     s = ti.shape
     if s == "prim":
         return [v]
+    if s == "frustumtest":
+        return []
+    if s == "order":
+        return [int(v)]
     if s == "vec":
         return [v.x, v.y] if ti.n == 2 else ([v.x, v.y, v.z] if ti.n == 3 else [v.x, v.y, v.z, v.w])
     if s == "color":
@@ -357,7 +437,9 @@ def unflat(ti, nums):
 
 
 def copy_elem(ti, v):
-    if ti.shape == "prim":
+    if isinstance(v, Fresh):
+        return v.fn()
+    if ti.shape in ("prim", "order", "frustumtest"):
         return v
     if ti.shape in ("euler",):
         return type(v)(v)
@@ -423,7 +505,7 @@ def elems(o):
 UNGENERABLE_HINT = ("_object*", "boost::python", "unsigned long", "basic_string", "FixedVArray", "StringArrayT",
                     "Rand32", "Rand48", "FixedArray2D", "FixedMatrix", "void*")
 PROTOCOL_NAMES = {"__getitem__", "__setitem__", "__len__", "__reduce__", "__getstate__", "__setstate__", "__copy__",
-                  "__deepcopy__", "__repr__", "__str__", "__hash__"}
+                  "__deepcopy__", "__repr__", "__str__", "__hash__", "makeReadOnly", "writable"}
 
 
 class EP:
@@ -452,6 +534,49 @@ def learn_types(overloads_by_owner):
                 PY2TI[pn] = ("scalar", ti)
 
 
+def make_ep(owner, name, ov):
+    e = EP()
+    e.owner, e.name, e.k, e.sig = owner, name, ov["k"], ov["sig"]
+    e.cret, e.cargs = ov["cret"], ov["cargs"]
+    e.key = "%s.%s#%d" % (owner or "imath", name, ov["k"])
+    e.skip = None
+    e.ctor = False
+    args = list(e.cargs)
+    if owner is not None and name == "__init__":
+        e.ctor = True
+        args = args[1:]
+    e.args = []       # (kind 'array'|'scalar', TI, lvalue)
+    if name in PROTOCOL_NAMES:
+        e.skip = "indexing/pickling protocol (property C19)"
+    for t, lv in args:
+        el = arr_elem(t)
+        ti = TI.get(el if el is not None else t)
+        if not ti.ok:
+            e.skip = e.skip or ("argument type not generable: " + t)
+            continue
+        if el is not None and ti.arraycls() is None:
+            e.skip = e.skip or ("no python class known for " + t)
+        if el is None and ti.shape != "prim" and ti.pycls() is None:
+            e.skip = e.skip or ("no python class known for " + t)
+        e.args.append(("array" if el is not None else "scalar", ti, lv))
+    if e.ctor and not any(k == "array" for k, _, _ in e.args):
+        e.skip = e.skip or "constructor without array argument"
+    rt = e.cret
+    rel = arr_elem(rt)
+    if e.ctor:
+        if owner not in PY2TI or PY2TI[owner][0] != "array":
+            e.skip = e.skip or "constructs %s, not a FixedArray (variable-length / string arrays are out of scope)" % owner
+    elif rt not in ("void", "_object*") and not TI.get(rel if rel is not None else rt).ok:
+        e.skip = e.skip or ("result type not serialisable: " + rt)
+    if owner is not None and not e.ctor and not e.args:
+        e.skip = e.skip or "static/no self"
+    e.method = owner is not None and not e.ctor
+    return e
+
+
+ARRAYLIKE = []      # keys of all overloads whose C++ signature mentions any array-like type
+
+
 def enumerate_entry_points():
     raw = []
     for cn in sorted(dir(imath)):
@@ -478,57 +603,40 @@ def enumerate_entry_points():
                     raw.append((None, cn, dict(ov, k=k)))
     learn_types(raw)
     eps, nonvec = [], 0
+    del ARRAYLIKE[:]
     for owner, name, ov in raw:
         types = [ov["cret"]] + [t for t, _ in ov["cargs"]]
+        if re.search(r"Fixed(Array2D|Array|Matrix|VArray)<|StringArrayT<", ov["sig"]):
+            ARRAYLIKE.append("%s.%s#%d" % (owner or "imath", name, ov["k"]))
         if not any(ARRAY_RE.match(t) for t in types):
             nonvec += 1
             continue
-        e = EP()
-        e.owner, e.name, e.k, e.sig = owner, name, ov["k"], ov["sig"]
-        e.cret, e.cargs = ov["cret"], ov["cargs"]
-        e.key = "%s.%s#%d" % (owner or "imath", name, ov["k"])
-        e.skip = None
-        e.ctor = False
-        args = list(e.cargs)
-        if owner is not None and name == "__init__":
-            e.ctor = True
-            args = args[1:]
-        e.args = []       # (kind 'array'|'scalar', TI, lvalue)
-        if name in PROTOCOL_NAMES:
-            e.skip = "indexing/pickling protocol (property C19)"
-        for t, lv in args:
-            el = arr_elem(t)
-            ti = TI.get(el if el is not None else t)
-            if not ti.ok:
-                e.skip = e.skip or ("argument type not generable: " + t)
-                continue
-            if el is not None and ti.arraycls() is None:
-                e.skip = e.skip or ("no python class known for " + t)
-            if el is None and ti.shape != "prim" and ti.pycls() is None:
-                e.skip = e.skip or ("no python class known for " + t)
-            e.args.append(("array" if el is not None else "scalar", ti, lv))
-        if e.ctor and not any(k == "array" for k, _, _ in e.args):
-            e.skip = e.skip or "constructor without array argument"
-        rt = e.cret
-        rel = arr_elem(rt)
-        if e.ctor:
-            if owner not in PY2TI or PY2TI[owner][0] != "array":
-                e.skip = e.skip or "constructs %s, not a FixedArray (variable-length / string arrays are out of scope)" % owner
-        elif rt not in ("void", "_object*") and not TI.get(rel if rel is not None else rt).ok:
-            e.skip = e.skip or ("result type not serialisable: " + rt)
-        if owner is not None and not e.ctor and not e.args:
-            e.skip = e.skip or "static/no self"
-        e.method = owner is not None and not e.ctor
+        e = make_ep(owner, name, ov)
         eps.append(e)
     return eps, nonvec, len(raw)
 
 
-CORE_CLASSES = {"IntArray", "FloatArray", "V3fArray", "QuatfArray", "M44fArray", "Box3f", "Frustumf", "M44f"}
+CORE_CLASSES = {"IntArray", "FloatArray", "V3fArray", "QuatfArray", "M44fArray", "Box3f", "M44f", "FrustumTestf", "FrustumTestd"}
 CORE_NAMES = re.compile(r"^__(i|r)?(add|sub|mul|div|truediv|neg|mod|eq|ne|lt|le|gt|ge)__$")
 
 
+HAND_TASK_OWNERS = re.compile(r"^(Quat[fd]Array|M44[fd]Array|M33[fd]Array|M22[fd]Array|Box[23](f|d|i|s|i64)|FrustumTest[fd]|Euler[fd]Array)$")
+
+
+def is_always(e):
+    """exercised in EVERY quick run (not seed-rotated): the owners of the hand-written Task structs (PyImathQuat.cpp,
+    PyImathMatrix*.cpp, PyImathBox.cpp, PyImathFrustum.cpp) and the many-array constructors"""
+    if e.owner and HAND_TASK_OWNERS.match(e.owner) and not CORE_NAMES.match(e.name):
+        return True
+    # the vector operations that have failure inputs (zero / denormal / overflowing vectors): array and scalar forms are
+    # different functions there (op_vecNormalized* vs Vec::normalized*)
+    if e.owner and re.match(r"^V[234][fd]Array$", e.owner) and re.search(r"normaliz|length", e.name):
+        return True
+    return e.ctor and sum(1 for k, _, _ in e.args if k == "array") >= 9
+
+
 def is_core(e):
-    if e.owner in ("Box3f", "Frustumf", "M44f"):
+    if e.owner in ("Box3f", "M44f", "FrustumTestf", "FrustumTestd"):
         return True
     if e.owner in ("QuatfArray", "M44fArray"):
         return not CORE_NAMES.match(e.name) and not e.name.startswith("__")
@@ -550,8 +658,30 @@ def role_for(e, pos, ti):
     return "any"
 
 
+STRIDED_PRIM = {"f32": [("V3fArray", "V3f", "xyz"), ("QuatfArray", "Quatf", ("r", "x", "y", "z")), ("C4fArray", "Color4f", "rgba")],
+                "f64": [("V3dArray", "V3d", "xyz"), ("QuatdArray", "Quatd", ("r", "x", "y", "z"))],
+                "i32": [("V3iArray", "V3i", "xyz"), ("V2iArray", "V2i", "xy")], "i16": [("V3sArray", "V3s", "xyz")],
+                "u8": [("C4cArray", "Color4c", "rgba"), ("C3cArray", "Color3c", "rgb")]}
+BOX_SFX = {"f32": "f", "f64": "d", "i32": "i", "i16": "s", "i64": "i64"}
+
+
+def strided_sources(ti):
+    """array classes one of whose component properties is a STRIDED FixedArray of element type ti:
+    [(array class, element class, component names)]"""
+    out = []
+    if ti.shape == "prim":
+        for an, en, comps in STRIDED_PRIM.get(ti.base, []):
+            if hasattr(imath, an) and hasattr(imath, en):
+                out.append((getattr(imath, an), getattr(imath, en), tuple(comps)))
+    elif ti.shape == "vec" and ti.n in (2, 3) and ti.base in BOX_SFX:
+        an, en = "Box%d%sArray" % (ti.n, BOX_SFX[ti.base]), "Box%d%s" % (ti.n, BOX_SFX[ti.base])
+        if hasattr(imath, an) and hasattr(imath, en):
+            out.append((getattr(imath, an), getattr(imath, en), ("min", "max")))
+    return out
+
+
 class ArgSpec:
-    """a generated argument: values + how it is presented (direct / masked / strided / scalar)"""
+    """a generated argument: values + how it is presented (direct / masked / strided / strided-masked / scalar)"""
 
     def __init__(self, kind, ti, lv, mode, values, under=None, idx=None):
         self.kind, self.ti, self.lv, self.mode = kind, ti, lv, mode
@@ -559,12 +689,33 @@ class ArgSpec:
         self.under = under              # masked: values of the whole underlying array
         self.idx = idx                  # masked: selected raw indices
         self.sel = None                 # full-*: element i of the operation reads this argument at sel[i]
+        self.src = None                 # strided*: (array class, element class, component names, chosen component)
+
+    def carrier(self, vals):
+        """strided*: an array of a composite class whose component `comp` holds vals (the other components hold
+        other generated values)"""
+        acls, ecls, comps, c = self.src
+        n = len(vals)
+        v = acls(n)
+        for i, x in enumerate(vals):
+            parts = [(x if k == c else vals[(i + 1 + k) % n]) for k in range(len(comps))]
+            v[i] = ecls(*parts)
+        return v
 
     def build(self):
         """-> (object passed to the call, underlying array or None)"""
         if self.kind == "scalar":
             return copy_elem(self.ti, self.values), None
         cls = self.ti.arraycls()
+        if self.mode == "strided":
+            v = self.carrier(self.values)
+            return getattr(v, self.src[2][self.src[3]]), v
+        if self.mode == "strided-masked":
+            u = self.carrier(self.under)
+            m = imath.IntArray(len(self.under))
+            for i in self.idx:
+                m[i] = 1
+            return getattr(u, self.src[2][self.src[3]])[m], u
         if self.mode in ("direct", "full-direct"):
             a = cls(len(self.values))
             for i, v in enumerate(self.values):
@@ -593,12 +744,35 @@ def make_spec(e, pos, kind, ti, lv, mode, L, rng, ds):
     role = role_for(e, pos, ti)
     if kind == "scalar":
         return ArgSpec(kind, ti, lv, "scalar", gen_value(ti, rng, ds, role))
-    if mode in ("direct", "full-direct"):
-        return ArgSpec(kind, ti, lv, mode, [gen_value(ti, rng, ds, role) for _ in range(L)])
+    def values(k):
+        vs = [gen_value(ti, rng, ds, role) for _ in range(k)]
+        if ds == "edge" and not SAFE and ti.isfloat and ti.shape in ("vec", "color", "quat") and role not in ("divisor", "shift"):
+            # every edge array holds the whole-element failure inputs (zero vector first) at fixed positions
+            for j, w in enumerate(SPECIALS):
+                if j < k:
+                    try:
+                        vs[j] = special_element(ti, rng, w)
+                    except Exception:
+                        pass
+        return vs
+    src = None
+    if mode.startswith("strided"):
+        cands = strided_sources(ti)
+        a, b_, comps = cands[rng.randrange(len(cands))]
+        src = (a, b_, comps, rng.randrange(len(comps)))
+    if mode in ("direct", "full-direct", "strided"):
+        sp = ArgSpec(kind, ti, lv, mode, values(L))
+        sp.src = src
+        return sp
     n = L + L // 3 + 3
     idx = sorted(rng.sample(range(n), L))
     under = [gen_value(ti, rng, ds, role) for _ in range(n)]
-    return ArgSpec(kind, ti, lv, mode, [under[i] for i in idx], under, idx)
+    vs = values(L)
+    for i, v in zip(idx, vs):
+        under[i] = v
+    sp = ArgSpec(kind, ti, lv, mode, vs, under, idx)
+    sp.src = src
+    return sp
 
 
 def readback(spec, obj):
@@ -669,7 +843,7 @@ def run_once(e, specs):
         return ("raise", type(ex).__name__, str(ex)[:200], None, None)
     lsn = []
     for s, (o, u) in zip(specs, built):
-        if s.lv or (s.kind == "array" and s.mode == "masked"):
+        if s.lv or (s.kind == "array" and s.mode in ("masked", "strided", "strided-masked")):
             lsn.append(snap_obj(u if u is not None else o))
         else:
             lsn.append(None)
@@ -759,6 +933,21 @@ def fdiv(a, b):
         return math.copysign(float("inf"), a) * math.copysign(1.0, b)
 
 
+_LIBM = None
+
+
+def libm_pow(base, a, b):
+    """std::pow at the element precision: powf / pow of the C library the module itself calls"""
+    global _LIBM
+    if _LIBM is None:
+        _LIBM = ctypes.CDLL("libm.so.6")
+        _LIBM.pow.restype = ctypes.c_double
+        _LIBM.pow.argtypes = [ctypes.c_double, ctypes.c_double]
+        _LIBM.powf.restype = ctypes.c_float
+        _LIBM.powf.argtypes = [ctypes.c_float, ctypes.c_float]
+    return _LIBM.powf(a, b) if base == "f32" else _LIBM.pow(a, b)
+
+
 def builtin_ref(name, ti, a, rest):
     """C semantics of the operator `name` on primitive element type `ti.base`; returns (value, 'exact')
     or None when no reference is defined."""
@@ -788,6 +977,8 @@ def builtin_ref(name, ti, a, rest):
                 return rnd(fdiv(a, b)), "val"
             if n == "neg":
                 return -a, "val"
+            if n == "pow" and b is not None:
+                return libm_pow(base, a, b), "val"
         except OverflowError:
             return None
         return None
@@ -867,11 +1058,56 @@ SCALAR_NAME = {
     # = op_quatSlerp = IMATH_NAMESPACE::slerpShortestArc (PyImathQuatOperators.h:33-37); the scalar
     # Quat.slerp is IMATH_NAMESPACE::slerp, Quat.slerpShortestArc is the corresponding binding.
     ("QuatfArray", "slerp"): "slerpShortestArc", ("QuatdArray", "slerp"): "slerpShortestArc",
+    # QuatArray.dot / euclideanInnerProduct: the scalar class spells the inner product `^`
+    ("QuatfArray", "dot"): "__xor__", ("QuatdArray", "dot"): "__xor__",
+    ("QuatfArray", "euclideanInnerProduct"): "__xor__", ("QuatdArray", "euclideanInnerProduct"): "__xor__",
 }
 
 
 def scalar_name(e):
     return SCALAR_NAME.get((e.owner, e.name), e.name)
+
+
+class NoRef(Exception):
+    pass
+
+
+class SkipElement(Exception):
+    pass
+
+
+# NAMED tolerance list: everything else must be bit-identical to the scalar binding.
+TOLERANCE = {
+    # QuatArray ^ QuatArray is op_quatDot = euclideanInnerProduct (r*r' + x*x' + y*y' + z*z', PyImathQuatOperators.h);
+    # the scalar Quat.__xor__ is Quat::operator^ (r*r' + (v ^ v')): another summation order
+    ("QuatfArray", "__xor__"): "array: euclideanInnerProduct, scalar `^`: r*r' + v.dot(v') (summation order)",
+    ("QuatdArray", "__xor__"): "array: euclideanInnerProduct, scalar `^`: r*r' + v.dot(v') (summation order)",
+    ("QuatfArray", "dot"): "array: euclideanInnerProduct, scalar `^`: r*r' + v.dot(v') (summation order)",
+    ("QuatdArray", "dot"): "array: euclideanInnerProduct, scalar `^`: r*r' + v.dot(v') (summation order)",
+    ("QuatfArray", "euclideanInnerProduct"): "array: euclideanInnerProduct, scalar `^`: r*r' + v.dot(v') (summation order)",
+    ("QuatdArray", "euclideanInnerProduct"): "array: euclideanInnerProduct, scalar `^`: r*r' + v.dot(v') (summation order)",
+}
+MODULE_FLOAT_REASON = ("module function on FloatArray: python floats always select the `double` overload of the scalar binding, "
+                       "so the reference is evaluated in double and rounded (the float overload is tied bit-exactly to the C++ "
+                       "library by c20_scalar on 1-element arrays)")
+
+
+def tolerance_reason(e, how, specs, tti):
+    r = TOLERANCE.get((e.owner or "imath", e.name))
+    if r:
+        return r
+    if how == "module" and (tti.base == "f32" or any(s.ti.base == "f32" for s in specs)):
+        return MODULE_FLOAT_REASON
+    return None
+
+
+def canon_pack(ti, nums):
+    global CANON_NAN
+    CANON_NAN = True
+    try:
+        return pack(ti, nums)
+    finally:
+        CANON_NAN = False
 
 
 def scalar_eval(e, how, sargs, tti):
@@ -931,6 +1167,16 @@ def combos_for(e, rng, full):
             q = rng.choice(apos)
             res.append({p: ("masked" if p == q else "direct") for p in apos})
         res.append({p: rng.choice(("masked", "direct")) for p in apos})
+    # STRIDED presentations (component views of composite arrays: _stride > 1) and masked references ON strided
+    # arrays, one argument at a time, then all together
+    sp = [p for p in apos if strided_sources(e.args[p][1])]
+    for q in (sp if full else sp[rng.randrange(len(sp)):][:1] if sp else []):
+        res.append({p: ("strided" if p == q else "direct") for p in apos})
+        res.append({p: ("strided-masked" if p == q else "direct") for p in apos})
+    if len(sp) > 1:
+        res.append({p: ("strided-masked" if p in sp else "masked") for p in apos})
+        if full:
+            res.append({p: ("strided" if p in sp else "direct") for p in apos})
     out = []
     for r in res:
         out.append([r.get(i, "scalar") for i in range(len(e.args))])
@@ -989,7 +1235,7 @@ class Exerciser:
                 elif full:
                     Ls = [7, 201, 257] if ds == "nice" else [7, 257]
                 else:
-                    Ls = [7, 257] if ds == "nice" else [201]
+                    Ls = [7, 257] if ds == "nice" else [7, 201]      # (7: the edge dataset is scalar-checked in every tier)
                 for L in Ls:
                     self.one_config(e, modes, ds, L, rng, summ, full, dispatched_at)
         # aliasing: the same array object as self and argument (identical-index aliasing)
@@ -1090,6 +1336,8 @@ class Exerciser:
         summ["runs"] += 1
         if ref[0] == "raise":
             summ["raises"] += 1
+            if ds == "nice" and 0 < L <= 7 and all(s.mode in ("direct", "scalar") for s in specs):
+                self.raise_check(e, specs, kinds, ds, L, ref, summ)
         # two identical unsplit runs must agree (else: uninitialised / out-of-bounds reads, or an RNG)
         ref2 = run_once(e, specs)
         if ref[:3] != ref2[:3] and not self.nan_only(ref, ref2):
@@ -1215,16 +1463,19 @@ class Exerciser:
         return "element-method"
 
     def scalar_check(self, e, specs, kinds, ds, L, ref, summ):
+        """element by element against the scalar binding.  EXACT (bit-identical, any NaN == any NaN) unless the
+        entry point is on the NAMED tolerance list TOLERANCE / the module-float rule (then: 8 ulp-estimates)."""
         if L == 0:
             return
         how = self.scalar_counterpart(e)
-        summ["scalar_ref"] = how
+        if not str(summ.get("scalar_ref") or "").startswith(how):
+            summ["scalar_ref"] = how
         status, rbytes, lsn, result, built = ref
         # element values as stored BEFORE the call: rebuild (the call may have modified lvalues)
         before = [s.build() for s in specs]
         vals = [readback(s, b[0]) for s, b in zip(specs, before)]
         # what to compare: the returned array, or the (first) lvalue array argument
-        target, tti, tgt_is_self = None, None, False
+        target, tti = None, None
         c = classify_obj(result) if result is not None else None
         ret_is_self = False
         if c and c[0] == "array" and len(result) == L:
@@ -1234,17 +1485,20 @@ class Exerciser:
         elif result is None or isinstance(result, (int, float, bool)) or (c and c[0] == "scalar"):
             if specs and specs[0].kind == "array" and specs[0].lv:
                 target, tti, ret_is_self = elems(built[0][0]), specs[0].ti, True
-            elif specs and specs[0].kind == "scalar" and specs[0].lv and e.method:
+            elif specs and specs[0].kind == "scalar" and specs[0].lv and e.method and any(s.kind == "array" for s in specs[1:]) \
+                    and specs[0].ti.shape == "box":
                 return self.reduction_check(e, specs, kinds, ds, L, built, vals, summ)
+            elif e.name in ("reduce", "min", "max", "bounds", "computeBoundingBox") and len(specs) == 1 and specs[0].kind == "array":
+                return self.fold_check(e, specs, kinds, ds, L, result, vals, summ)
             else:
+                summ["scalar_ref"] = "none: the call returns no array and modifies none (nothing to compare element-wise)"
                 return
         else:
+            summ["scalar_ref"] = "none: result of type %s is not an array of a known element type" % type(result).__name__
             return
-        if how == "element-method" and e.name != "ifelse" and not hasattr(vals[0][0] if vals[0] else None, scalar_name(e)):
-            summ["scalar_ref"] = "none: element type has no method " + scalar_name(e)
-            return
-        if scalar_name(e) != e.name:
-            summ["scalar_ref"] = how + " (scalar method %s)" % scalar_name(e)
+        tol_reason = tolerance_reason(e, how, specs, tti)
+        if tol_reason:
+            summ["tolerance_listed"] = tol_reason
         # a masked in-place operation must leave the unselected elements of the underlying array alone
         if specs and specs[0].kind == "array" and specs[0].lv and specs[0].mode == "masked" and built[0][1] is not None:
             after = elems(built[0][1])
@@ -1257,67 +1511,31 @@ class Exerciser:
                                  {"L": L, "dataset": ds, "raw_index": j, "before": repr(orig[j]), "after": repr(after[j])})
                     break
             summ["unselected_elements_checked"] = summ.get("unselected_elements_checked", 0) + len(orig) - len(sel)
-        worst, nchk, nexact, bad = 0, 0, 0, None
+        worst, nchk, nexact, bad, nraise = 0, 0, 0, None, 0
         fn = getattr(imath, e.name) if how == "module" else None
         for i in range(L):
             # copy only what the scalar call may modify (its self); everything else is passed as read
             sargs = [(copy_elem(s.ti, pick(s, v, i)) if (j == 0 and (s.lv or s.kind == "scalar")) else pick(s, v, i))
                      for j, (s, v) in enumerate(zip(specs, vals))]
             try:
-                if how == "module":
-                    r = fn(*sargs)
-                elif how == "ctor":
-                    if len(sargs) == 1 and specs[0].ti.n == tti.n and specs[0].ti.shape == tti.shape:
-                        # converting constructor: component-wise C++ conversion (float -> int truncates)
-                        comps = flat(specs[0].ti, sargs[0])
-                        if not tti.isfloat:
-                            lo_, hi_ = INT_RANGE[tti.base]
-                            # out-of-range float -> integer conversion is undefined behaviour in C++: not compared
-                            comps = [int(c) if (c == c and not math.isinf(c) and lo_ <= int(c) <= hi_) else None for c in comps]
-                            if None in comps:
-                                continue
-                        elif tti.base == "f32":
-                            comps = [f32(float(c)) for c in comps]
-                        else:
-                            comps = [float(c) for c in comps]
-                        r = unflat(tti, comps) if tti.shape != "euler" else None
-                    else:
-                        r = tti.pycls()(*sargs) if tti.shape != "prim" else None
-                    if r is None:
-                        return
-                elif e.name == "ifelse" and len(sargs) == 3:
-                    r = sargs[0] if sargs[1] else sargs[2]       # choice[i] ? self[i] : other[i]
-                elif how == "builtin":
-                    rr = builtin_ref(e.name, specs[0].ti, sargs[0], sargs[1:])
-                    if rr is None:
-                        summ["scalar_ref"] = "none: no C-semantics reference for %s" % e.name
-                        return
-                    r = rr[0]
-                elif how == "scalar-self":
-                    r = getattr(sargs[0], e.name)(*sargs[1:])
-                else:
-                    r = getattr(sargs[0], scalar_name(e))(*sargs[1:])
-                    if r is None or ret_is_self:
-                        r = sargs[0] if (r is None or not isinstance(r, type(sargs[0]))) else r
-            except TypeError as ex:          # Boost.Python.ArgumentError derives from TypeError
-                summ["scalar_ref"] = "none: scalar binding has no such overload (%s)" % str(ex).split("\n")[0][:80]
+                r, spelling = self.scalar_one(e, how, fn, specs, sargs, tti, ret_is_self)
+            except NoRef as nr:
+                summ["scalar_ref"] = "none: " + str(nr)
                 return
+            except SkipElement:
+                continue
             except Exception as ex:
-                continue                     # the scalar raises for this element (array did not): not comparable
-            if r is NotImplemented:
-                summ["scalar_ref"] = "none: scalar binding has no such overload (NotImplemented)"
-                return
-            if ret_is_self and how in ("element-method",) and r is None:
-                r = sargs[0]
+                nraise += 1                  # the scalar raises for this element (the array call did not)
+                summ.setdefault("scalar_raise_example", "%s: %s" % (type(ex).__name__, str(ex)[:80]))
+                continue
+            if spelling and spelling != e.name:
+                summ["scalar_ref"] = "%s (scalar spelling %s)" % (how, spelling)
             got = target[i]
             try:
                 if tti.shape == "prim":
                     rn, gn = [round_to(tti, r)], [got]
                 else:
                     if not isinstance(r, type(got)):
-                        if isinstance(r, (bool, int, float)) or classify_obj(r) is None:
-                            summ["scalar_ref"] = "none: scalar binding returns %s for element type %s" % (type(r).__name__, type(got).__name__)
-                            return
                         summ["scalar_ref"] = "none: scalar binding returns %s, array holds %s" % (type(r).__name__, type(got).__name__)
                         return
                     rn, gn = flat(tti, r), flat(tti, got)
@@ -1327,6 +1545,22 @@ class Exerciser:
             nchk += 1
             if pack(tti, rn) == pack(tti, gn):
                 nexact += 1
+                continue
+            if canon_pack(tti, rn) == canon_pack(tti, gn):
+                nexact += 1
+                summ["scalar_nan_bits_only"] = summ.get("scalar_nan_bits_only", 0) + 1
+                continue
+            if not tol_reason:
+                # EXACT is required: any other difference (an ulp, the sign of a zero) is a violation
+                worst = max(worst, 10 ** 9)
+                if bad is None:
+                    bad = (i, [pick(s_, v_, i) for s_, v_ in zip(specs, vals)], r, got, "not bit-identical (entry point is not on the tolerance list)")
+                continue
+            if tti.isfloat and any(isinstance(x, float) and (x != x or math.isinf(x)) for x in rn + gn):
+                # tolerance-listed entry points evaluate another expression / another precision: overflow and
+                # invalid operations need not coincide; non-finite results are not compared there
+                summ["scalar_nonfinite_skipped"] = summ.get("scalar_nonfinite_skipped", 0) + 1
+                nchk -= 1
                 continue
             if tti.isfloat and how == "module" and tti.base == "f32" and (
                     any(isinstance(x, float) and (x != x or math.isinf(x)) for x in rn + gn) or
@@ -1355,8 +1589,7 @@ class Exerciser:
                         w = max(w, 10 ** 9)
                 allfinite = all((not isinstance(x, float)) or (x == x and not math.isinf(x)) for x in rn + gn)
                 if w > self.o["ulp_tol"] and allfinite and how in ("module", "scalar-self", "element-method"):
-                    # The scalar binding may evaluate in another precision (python floats select the `double`
-                    # overload): allow a few ulps of the SUM OF ABSOLUTE TERMS, estimated by the sensitivity of
+                    # allow a few ulps of the SUM OF ABSOLUTE TERMS, estimated by the sensitivity of
                     # the scalar binding to a one-ulp perturbation of each primitive float input.
                     sens = self.sensitivity(e, how, fn, specs, sargs, tti, rn)
                     if sens is not None:
@@ -1365,24 +1598,152 @@ class Exerciser:
                         w = min(w, dif / (scale * eps + sens)) if (scale * eps + sens) > 0 else w
                 worst = max(worst, w)
                 if w == 0:
-                    summ["scalar_zero_sign_or_nan_bits"] = summ.get("scalar_zero_sign_or_nan_bits", 0) + 1
-                    summ.setdefault("scalar_zero_sign_example", {"args": [repr(a) for a in sargs], "scalar": repr(rn), "array": repr(gn)})
+                    summ["scalar_zero_sign"] = summ.get("scalar_zero_sign", 0) + 1
                 if w > self.o["ulp_tol"] and bad is None:
                     bad = (i, [pick(s_, v_, i) for s_, v_ in zip(specs, vals)], r, got, w)
             else:
                 worst = max(worst, 10 ** 9)
                 if bad is None:
                     bad = (i, [pick(s_, v_, i) for s_, v_ in zip(specs, vals)], r, got, None)
+        if nchk == 0 and nraise > 0 and nraise == L:
+            summ["scalar_all_raise"] = summ.get("scalar_all_raise", 0) + 1
         summ["scalar_checked"] += nchk
         summ["scalar_exact"] += nexact
+        summ["scalar_raised_elements"] = summ.get("scalar_raised_elements", 0) + nraise
+        if ds not in summ.setdefault("scalar_datasets", []):
+            summ["scalar_datasets"].append(ds)
         summ["scalar_ulp_max"] = max(summ["scalar_ulp_max"], worst if worst < 10 ** 9 else 10 ** 9)
         if bad is not None:
             i, sargs, r, got, w = bad
-            self.violate("scalar", e, kinds, "array element differs from the scalar binding beyond tolerance",
+            self.violate("scalar", e, kinds, "array element differs from the scalar binding" + (" beyond tolerance" if tol_reason else " (bit-exact required)"),
                          {"L": L, "dataset": ds, "index": i, "scalar_args": [repr(a) for a in sargs], "scalar_result": repr(r),
-                          "array_element": repr(got), "ulps": w, "how": how,
+                          "array_element": repr(got), "ulps": w, "how": summ["scalar_ref"], "tolerance_listed": tol_reason,
                           "scalar_result_exact": [x.hex() if isinstance(x, float) else x for x in (flat(tti, r) if tti.shape != "prim" else [round_to(tti, r)])],
                           "array_element_exact": [x.hex() if isinstance(x, float) else x for x in (flat(tti, got) if tti.shape != "prim" else [got])]})
+
+    def scalar_one(self, e, how, fn, specs, sargs, tti, ret_is_self):
+        """the scalar binding for one element -> (result, spelling used).  NoRef: no scalar reference exists."""
+        if how == "module":
+            return fn(*sargs), None
+        if how == "ctor":
+            if len(sargs) == 1 and specs[0].ti.n == tti.n and specs[0].ti.shape == tti.shape:
+                # converting constructor: component-wise C++ conversion (float -> int truncates)
+                comps = flat(specs[0].ti, sargs[0])
+                if not tti.isfloat:
+                    lo_, hi_ = INT_RANGE[tti.base]
+                    # out-of-range float -> integer conversion is undefined behaviour in C++: not compared
+                    comps = [int(c) if (c == c and not math.isinf(c) and lo_ <= int(c) <= hi_) else None for c in comps]
+                    if None in comps:
+                        raise SkipElement()
+                elif tti.base == "f32":
+                    comps = [f32(float(c)) for c in comps]
+                else:
+                    comps = [float(c) for c in comps]
+                if tti.shape == "euler":
+                    return tti.pycls()(comps[0], comps[1], comps[2], sargs[0].order()), None
+                return unflat(tti, comps), None
+            if tti.shape == "prim":
+                raise NoRef("constructor of a primitive array from %d arguments" % len(sargs))
+            return tti.pycls()(*sargs), None
+        if e.name == "ifelse" and len(sargs) == 3:
+            return (sargs[0] if sargs[1] else sargs[2]), None       # choice[i] ? self[i] : other[i]
+        if how == "builtin":
+            rr = builtin_ref(e.name, specs[0].ti, sargs[0], sargs[1:])
+            if rr is None:
+                raise NoRef("no C-semantics reference for %s on %s" % (e.name, specs[0].ti.base))
+            return rr[0], None
+        if how == "scalar-self":
+            try:
+                return getattr(sargs[0], e.name)(*sargs[1:]), None
+            except TypeError:
+                # FrustumTestd.isVisible(V3fArray) converts every point to V3d: the scalar spelling is isVisible(V3d(p))
+                conv = []
+                for s_, a_ in zip(specs[1:], sargs[1:]):
+                    if s_.ti.shape == "vec" and s_.ti.base == "f32" and hasattr(imath, "V%dd" % s_.ti.n):
+                        conv.append(getattr(imath, "V%dd" % s_.ti.n)(*flat(s_.ti, a_)))
+                    else:
+                        conv.append(a_)
+                return getattr(sargs[0], e.name)(*conv), e.name + " (float points converted to double)"
+        if e.name == "setEulerXYZ" and tti.shape == "quat" and len(sargs) == 2:
+            # no scalar method of that name: q.setEulerXYZ(v) is Euler<T>(v, XYZ).toQuat()
+            sfx = "f" if tti.base == "f32" else "d"
+            return getattr(imath, "Euler" + sfx)(sargs[1]).toQuat(), "Euler%s(v).toQuat()" % sfx
+        if e.name == "extract" and tti.shape == "quat" and len(sargs) == 2 and specs[1].ti.base != tti.base:
+            # QuatfArray.extract(M44dArray): extractQuat at double, converted to the element type
+            q = imath.Quatd()
+            q.extract(sargs[1])
+            comps = flat(TI.get(specs[1].ti.cxx.replace("Matrix44", "Quat")), q)
+            return unflat(tti, [f32(c) for c in comps] if tti.base == "f32" else comps), "Quatd.extract + conversion"
+        # element-method: the scalar method of the same name, or the spelling python itself falls back to
+        name = scalar_name(e)
+        tried = []
+        cands = [name]
+        mm = re.match(r"^__(r|i)(\w+)__$", name)
+        if mm and mm.group(2) in ("add", "sub", "mul", "div", "truediv", "mod", "xor", "and", "or", "pow"):
+            cands.append("__%s__" % mm.group(2))
+        for c_ in list(cands):
+            if "truediv" in c_:
+                cands.append(c_.replace("truediv", "div"))
+            elif "div" in c_:
+                cands.append(c_.replace("div", "truediv"))
+        first_exc = None
+        for cand in cands:
+            swap = cand != name and name.startswith("__r")
+            a = [sargs[1], sargs[0]] + sargs[2:] if swap and len(sargs) >= 2 else sargs
+            f = getattr(a[0], cand, None)
+            if f is None:
+                tried.append(cand + ": no such method")
+                continue
+            try:
+                r = f(*a[1:])
+            except TypeError as ex:            # Boost.Python.ArgumentError
+                tried.append(cand + ": " + str(ex).split("\n")[0][:50])
+                continue
+            except ValueError as ex:
+                if "expects an argument" in str(ex) or "invalid parameters" in str(ex):
+                    # the scalar binding rejects an argument of its own type (V3s /= V3s): fall back as python would
+                    tried.append(cand + ": " + str(ex)[:50])
+                    continue
+                raise
+            if r is NotImplemented:
+                tried.append(cand + ": NotImplemented")
+                continue
+            if r is None or (ret_is_self and not isinstance(r, type(a[0]))):
+                r = a[0]
+            return r, cand
+        raise NoRef("element type has no usable scalar method (%s)" % "; ".join(tried))
+
+    def raise_check(self, e, specs, kinds, ds, L, ref, summ):
+        """the array call raises on moderate, well-formed arguments: does the scalar binding succeed on every element?"""
+        how = self.scalar_counterpart(e)
+        if how == "ctor":
+            return
+        built = [s.build() for s in specs]
+        vals = [readback(s, b[0]) for s, b in zip(specs, built)]
+        fn = getattr(imath, e.name) if how == "module" else None
+        tti = None
+        ok = 0
+        for i in range(L):
+            sargs = [copy_elem(s.ti, pick(s, v, i)) for s, v in zip(specs, vals)]
+            try:
+                if how == "builtin":
+                    if builtin_ref(e.name, specs[0].ti, sargs[0], sargs[1:]) is None:
+                        return
+                elif how == "module":
+                    fn(*sargs)
+                elif how == "scalar-self":
+                    getattr(sargs[0], e.name)(*sargs[1:])
+                else:
+                    self.scalar_one(e, how, fn, specs, sargs, specs[0].ti, False)
+                ok += 1
+            except Exception:
+                return
+        if ok == L:
+            summ["array_raises_scalar_ok"] = summ.get("array_raises_scalar_ok", 0) + 1
+            self.violate("array-raises", e, kinds, "the array call raises (%s: %s) on moderate arguments for which the scalar binding "
+                         "succeeds on every element" % (ref[1], ref[2][:120]),
+                         {"L": L, "dataset": ds, "exception": ref[1:3], "values": self.describe_values(specs)},
+                         key="array-raises:%s" % e.key)
 
     def sensitivity(self, e, how, fn, specs, sargs, tti, rn):
         """sum over all float input components of |f(x_j (1+ulp)) - f(x)| (largest output component):
@@ -1411,6 +1772,55 @@ class Exerciser:
         except Exception:
             return None
         return total
+
+    def fold_check(self, e, specs, kinds, ds, L, result, vals, summ):
+        """array -> scalar folds (serial loops): reduce = sum in index order starting from zero, min / max component-wise,
+        bounds / computeBoundingBox = Box().extendBy(every element), each through the scalar semantics"""
+        ti = specs[0].ti
+        xs = vals[0]
+        try:
+            if e.name == "reduce":
+                if ti.shape == "prim":
+                    acc = 0.0 if ti.isfloat else 0
+                    for x in xs:
+                        rr = builtin_ref("__add__", ti, acc, [x])
+                        acc = rr[0]
+                    want, wti = round_to(ti, acc), ti
+                else:
+                    acc = unflat(ti, [0.0 if ti.isfloat else 0] * ti.n)
+                    for x in xs:
+                        acc = acc + x
+                    want, wti = acc, ti
+            elif e.name in ("min", "max"):
+                if L == 0:
+                    return
+                cols = list(zip(*[flat(ti, x) for x in xs]))
+                pickf = min if e.name == "min" else max
+                if any(isinstance(c, float) and c != c for col in cols for c in col):
+                    summ["scalar_ref"] = "fold (NaN inputs: comparison order dependent, not compared)"
+                    return
+                want, wti = unflat(ti, [pickf(col) for col in cols]), ti
+            else:
+                c = classify_obj(result)
+                if not c or c[1].shape != "box":
+                    summ["scalar_ref"] = "none: fold result is not a box"
+                    return
+                wti = c[1]
+                want = wti.pycls()()
+                for x in xs:
+                    want.extendBy(x)
+        except Exception as ex:
+            summ["scalar_ref"] = "none: fold reference raises (%s)" % str(ex)[:60]
+            return
+        summ["scalar_ref"] = "fold of the scalar operation over the elements"
+        summ["scalar_checked"] += L
+        wn = [want] if wti.shape == "prim" else flat(wti, want)
+        gn = [result] if wti.shape == "prim" else flat(wti, result)
+        if canon_pack(wti, wn) == canon_pack(wti, gn):
+            summ["scalar_exact"] += L
+        else:
+            self.violate("scalar", e, kinds, "fold over the array differs from folding the scalar operation over its elements",
+                         {"L": L, "dataset": ds, "fold_of_scalars": repr(want), "array_call": repr(result), "first_elements": [repr(x) for x in xs[:4]]})
 
     def reduction_check(self, e, specs, kinds, ds, L, built, vals, summ):
         """scalar self modified by an array argument (Box.extendBy): apply the scalar overload element by element"""
@@ -1545,8 +1955,10 @@ class Exerciser:
 
 def cmd_list():
     eps, nonvec, total = enumerate_entry_points()
-    out = {"overloads_total": total, "non_vectorised": nonvec, "vectorised": len(eps),
-           "entries": [{"key": e.key, "sig": e.sig, "skip": e.skip, "core": is_core(e),
+    out = {"overloads_total": total, "non_vectorised": nonvec, "vectorised": len(eps), "arraylike_keys": ARRAYLIKE,
+           "cxx2py": CXX2PY,
+           "entries": [{"key": e.key, "sig": e.sig, "skip": e.skip, "core": is_core(e), "always": is_always(e),
+                        "owner": e.owner, "name": e.name, "k": e.k, "cret": e.cret, "cargs": e.cargs,
                         "n_arrays": sum(1 for k, _, _ in e.args if k == "array")} for e in eps]}
     json.dump(out, sys.stdout)
 
@@ -1610,7 +2022,8 @@ def cmd_run(optpath, outpath):
 
 MODEL_TYPES = [("IntArray", 32, "V3iArray"), ("ShortArray", 16, "V3sArray"), ("SignedCharArray", 8, None)]
 MODEL_OPS = [("__add__", "add", False), ("__sub__", "sub", False), ("__mul__", "mul", False), ("__rsub__", "rsub", False),
-             ("__iadd__", "add", True), ("__isub__", "sub", True), ("__imul__", "mul", True)]
+             ("__iadd__", "add", True), ("__isub__", "sub", True), ("__imul__", "mul", True),
+             ("__lt__", "lt", False), ("__ge__", "ge", False), ("__eq__", "eq", False)]      # VectorizedOperation2 with an int result
 
 
 def acc_tokens(a):
@@ -1749,6 +2162,76 @@ def cmd_model(optpath, outpath):
                         cases.append((line, ("raise" if raised else "ok", 1 if st["dispatches"] else 0, real),
                                       {"cls": cls_name, "op": pyname, "L": L, "self": sm, "arg": am, "ranges": rs,
                                        "pool": pool_inst, "inworker": inworker}))
+    # ---- VectorizedOperation1 (unary minus) and VectorizedOperation3 (imath.clamp on IntArray, every array/scalar combination)
+    for cls_name, bits, vcls in MODEL_TYPES:
+        lo, hi = -(2 ** (bits - 1)), 2 ** (bits - 1) - 1
+
+        def rv3():
+            return rng.choice((0, 1, -1, lo + 1, hi, rng.randrange(lo + 1, hi + 1), rng.randrange(-9, 10)))
+        modes = ["direct", "masked"] + (["strided"] if vcls else [])
+        shapes = [("neg", 1)] + ([("clamp", 3)] if cls_name == "IntArray" else [])
+        for opname, nargs in shapes:
+            for L in o["model_lengths"]:
+                for rep in range(len(modes) * (1 if nargs == 1 else 4)):
+                    if L > 200:
+                        cs = sorted(rng.randrange(0, L + 1) for _ in range(rng.choice((1, 2, 5))))
+                        rs = [(a, b) for a, b in zip([0] + cs, cs + [L])]
+                        rng.shuffle(rs)
+                    else:
+                        rs = [(0, L)]
+                    pool_inst = rng.random() < 0.85
+                    inworker = pool_inst and rng.random() < 0.15
+                    heap = [0] * L
+                    objs, toks, meas, unders = [], [], [], []
+                    kinds_ = []
+                    for a_ in range(nargs):
+                        if nargs == 3 and rng.random() < 0.35 and (a_ > 0 or rep % 2):
+                            sc = rv3()
+                            objs.append(sc)
+                            toks.append("c %d" % sc)
+                            meas.append((1, 0))
+                            unders.append(None)
+                            kinds_.append("scalar")
+                        else:
+                            am = modes[rep % len(modes)] if a_ == 0 else rng.choice(modes)
+                            mis = nargs == 3 and a_ == 2 and rep % 7 == 6
+                            aL = L + (3 if mis else 0)
+                            ao, aacc, aunder, acell = mk_array(cls_name, bits, vcls, am, aL, heap, rv3)
+                            objs.append(ao)
+                            toks.append("a " + acc_tokens(aacc))
+                            meas.append((aL, 1))
+                            unders.append((aunder, acell, am == "strided"))
+                            kinds_.append(am + ("+3" if mis else ""))
+                    if all(m[1] == 0 for m in meas):
+                        continue
+                    H = len(heap)
+                    pooltok = "%d %d %d %s" % (1 if pool_inst else 0, 1 if inworker else 0, len(rs),
+                                               " ".join("%d %d %d" % (a, b, t) for t, (a, b) in enumerate(rs)))
+                    line = "vec %s %d %d %s d 0 1 %d %s %d %s %s" % (opname, bits, H, " ".join(map(str, heap)), nargs, " ".join(toks),
+                                                                 nargs, " ".join("%d %d" % m for m in meas), pooltok)
+                    if pool_inst:
+                        SHIM.script(rs, False)
+                        SHIM.in_worker(inworker)
+                    else:
+                        SHIM.clear()
+                    try:
+                        r = (-objs[0]) if opname == "neg" else imath.clamp(*objs)
+                        raised = False
+                    except Exception:
+                        raised, r = True, None
+                    st = SHIM.take()
+                    SHIM.in_worker(False)
+                    SHIM.clear()
+                    vecLen = max([m[0] for m in meas if m[1]] + [0])
+                    real = list(r) if not raised else [0] * L
+                    if not raised and len(real) != L:
+                        real = real[:L] + [0] * (L - len(real))
+                    for u in unders:
+                        if u is not None:
+                            real.extend(cells_of(u[0], u[1], u[2]))
+                    cases.append((line, ("raise" if raised else "ok", 1 if st["dispatches"] else 0, real),
+                                  {"cls": cls_name, "op": opname, "L": L, "self": kinds_[0], "arg": ",".join(kinds_[1:]) or "-", "ranges": rs,
+                                   "pool": pool_inst, "inworker": inworker}))
     # ---- reductions: Box.extendBy(array) with per-worker partial boxes; worker ids REUSED in the script ----
     box_cases = []        # (lines per coordinate, expected per coordinate, meta)
     for bname, vname, aname, dim in (("Box2i", "V2i", "V2iArray", 2), ("Box3i", "V3i", "V3iArray", 3),
@@ -1794,6 +2277,15 @@ def cmd_model(optpath, outpath):
                     box_cases.append((line, exp, {"cls": bname, "L": L, "coordinate": c, "script(start,end,tid)": rs,
                                                   "pool": pool_inst, "inworker": inworker, "threaded": threaded,
                                                   "worker_ids_reused": reused and pool_inst and not inworker and L > 200}))
+                # the same case through the GENERATED Box::extendBy(point) / extendBy(box) (Gen/C13Box.lean, `boxn`): all
+                # coordinates at once, the empty box being the default-constructed (max, lowest) one
+                bits_ = 16 if bname.endswith("s") else 32
+                b0 = "e" if variant % 2 == 0 else "b %s %s" % (" ".join(map(str, lo)), " ".join(map(str, hi)))
+                line = "boxn %d %d %d %s %s %s" % (dim, bits_, L, " ".join(str(x) for pnt in pts for x in pnt), b0, pooltok)
+                exp = " ".join(str(mn[c]) for c in range(dim)) + " " + " ".join(str(mx[c]) for c in range(dim))
+                box_cases.append((line, exp, {"cls": bname, "L": L, "coordinate": "all (generated extendBy)", "script(start,end,tid)": rs,
+                                              "pool": pool_inst, "inworker": inworker, "threaded": threaded, "generated": True,
+                                              "worker_ids_reused": reused and pool_inst and not inworker and L > 200}))
     p = subprocess.run([o["driver"]], input="\n".join([c[0] for c in cases] + [c[0] for c in box_cases]) + "\n",
                        capture_output=True, text=True)
     lines = p.stdout.strip().split("\n")
@@ -1807,7 +2299,7 @@ def cmd_model(optpath, outpath):
         if got.strip() != exp:
             nbox_bad += 1
             if nbox_bad <= 5:
-                out.put({"t": "viol", "kind": "model", "key": "model:%s.extendBy|reduction,coordinate%d" % (meta["cls"], meta["coordinate"]),
+                out.put({"t": "viol", "kind": "model", "key": "model:%s.extendBy|reduction,coordinate %s" % (meta["cls"], meta["coordinate"]),
                          "what": "Lean model (boxExtendBy) and real Box.extendBy(array) disagree",
                          "replay": dict(meta, driver_line=line[:3000], model=got[:100], real=exp)})
     if len(box_lines) != len(box_cases):
@@ -1830,8 +2322,54 @@ def cmd_model(optpath, outpath):
                          "what": "Lean model and real module disagree",
                          "replay": dict(meta, driver_line=line[:2000], model=got[:600], real=[st, used] + real[:60])})
     bad += nbox_bad
-    out.put({"t": "model", "cases": len(cases) + len(box_cases), "reduction_cases": len(box_cases),
+    ops_hit = {}
+    for c_ in cases:
+        ops_hit[c_[2]["op"]] = ops_hit.get(c_[2]["op"], 0) + 1
+    out.put({"t": "model", "cases": len(cases) + len(box_cases), "reduction_cases": len(box_cases), "cases_per_operator": ops_hit,
+             "reduction_cases_through_the_generated_extendBy": sum(1 for b in box_cases if b[2].get("generated")),
              "reduction_cases_with_reused_worker_ids": nreuse, "disagree": bad, "raise_cases": nraise, "pool_used_cases": nused, "hits": hits})
+
+
+def cmd_drd(optpath):
+    """thorough tier, under `valgrind --tool=drd`: every selected entry point once at L = 257 with direct arguments, the
+    range cut into 8 sub-ranges each on its own std::thread.  Nothing is compared here: the race detector's log is."""
+    global SHIM
+    o = json.load(open(optpath))
+    SHIM = Shim(o["shim"])
+    # no docstring introspection here (minutes under valgrind): the entry points come pre-parsed from `list`
+    CXX2PY.update(o["cxx2py"])
+    for ct, pn in list(CXX2PY.items()):
+        el = arr_elem(ct)
+        ti = TI.get(el if el is not None else ct)
+        if ti.ok:
+            PY2TI[pn] = ("array" if el is not None else "scalar", ti)
+    byk = {}
+    for d in o["entries"]:
+        e = make_ep(d["owner"], d["name"], {"k": d["k"], "sig": d["sig"], "cret": d["cret"], "cargs": [tuple(a) for a in d["cargs"]]})
+        if not e.skip:
+            byk[e.key] = e
+    n = 0
+    for k in o["keys"]:
+        e = byk.get(k)
+        if e is None:
+            continue
+        rng = random.Random("%d:drd:%s" % (o["seed"], k))
+        L = 257
+        try:
+            specs = [make_spec(e, pos, kind, ti, lv, "scalar" if kind == "scalar" else "direct", L, rng, "nice")
+                     for pos, (kind, ti, lv) in enumerate(e.args)]
+            cs = sorted(rng.randrange(1, L) for _ in range(7))
+            rs = [(a, b) for a, b in zip([0] + cs, cs + [L])]
+            print("DRD-BEGIN %s" % k, file=sys.stderr, flush=True)
+            SHIM.script(rs, True)
+            run_once(e, specs)
+            st = SHIM.take()
+            SHIM.clear()
+            print("DRD-END %s dispatches=%d" % (k, st["dispatches"]), file=sys.stderr, flush=True)
+            n += 1 if st["dispatches"] else 0
+        except Exception as ex:
+            print("DRD-END %s error=%s" % (k, type(ex).__name__), file=sys.stderr, flush=True)
+    print(json.dumps({"drd_dispatching_entry_points": n}))
 
 
 def cmd_probe(what):
@@ -1882,3 +2420,5 @@ if __name__ == "__main__":
         cmd_model(sys.argv[2], sys.argv[3])
     elif cmd == "probe":
         cmd_probe(sys.argv[2])
+    elif cmd == "drd":
+        cmd_drd(sys.argv[2])
